@@ -16,19 +16,20 @@ import (
 
 // X is the observation record of one execution.
 type X struct {
-	Writes   []OutWrite
-	Calls    []Call
-	Decors   []DecorEv
-	Fills    []FillEv
-	Shut     map[string]int // OnShutdown counts per decorator name
-	Debug    bytes.Buffer
-	Notified []interface{} // values received from the shutdown notifier
-	Events   map[string]int
-	Notes    []string
-	WaitStep int // step at which Progress.Wait returned (0 = did not)
+	Writes       []OutWrite
+	Calls        []Call
+	Decors       []DecorEv
+	Fills        []FillEv
+	Shut         map[string]int // OnShutdown counts per decorator name
+	Debug        bytes.Buffer
+	Notified     []interface{} // values received from the shutdown notifier
+	NotifiedIDs  [][]int
+	Events       map[string]int
+	Notes        []string
+	WaitStep     int // step at which Progress.Wait returned (0 = did not)
 	WritesAtWait int
-	FailWrite int // fail the k-th output write (1-based), 0 = never
-	Viol     []string
+	FailWrite    int // fail the k-th output write (1-based), 0 = never
+	Viol         []string
 }
 
 func NewX() *X { return &X{Shut: map[string]int{}, Events: map[string]int{}} }
